@@ -67,6 +67,10 @@ def check(ck):
         after = [s for s in f.body if s is not lp and f.body.index(s) > f.body.index(lp)] if lp in f.body else ["?"]
         ck.ob("_perform_subscription: the stream ends when the source ends (nothing after the loop)", not after, f, lp, construct="events:ends-with-source")
     with ck.rule("R2"):
+        # the source is started with arguments coerced from the *coerced* variables: the CoerceVariableValues table (C04.R1) - an
+        # explicit null stays null, a default applies only to an omitted variable
+        from .c04 import _variable_table
+        _variable_table(ck, repo)
         f = repo.func(ENG, "Engine._perform_subscription")
         fv = FuncView(f)
         p = f.positional_params
